@@ -1,5 +1,7 @@
 //! Harness bodies, part 3: integer dispatch (C14), UTF-8/UTF-16 constructors (C16).
 
+#[cfg(not(kani))]
+use crate::nk as kani;
 use crate::model::{self, ModelStr, MCAP};
 use crate::ops::{self, *};
 use crate::shim;
